@@ -282,6 +282,13 @@ func c15Gen(tier string, rng *rand.Rand) []c15Case {
 	for i := 0; i < n; i++ {
 		out = append(out, c15GenOne(rng))
 	}
+	m := 10
+	if tier == "thorough" {
+		m = 120
+	}
+	for i := 0; i < m; i++ {
+		out = append(out, c15E2EGenOne(rng, i))
+	}
 	return out
 }
 
@@ -403,7 +410,33 @@ func c15Corpus() []c15Case {
 			})
 		}
 	}
+	// a registry refresh drops and re-adds an endpoint whose stale adapter is still queued for a probe: the model's
+	// refutation witness (Props/C15.v, C15_blocked_after_streak_any_refresh_refuted) replayed on the implementation
+	mk("stale-probe-after-readd", func(b *c15B) {
+		b.refresh([]int{0, 1})
+		b.call(0, 0, false)
+		b.call(0, 0, false)
+		b.outs(0, 5, false)
+		b.adv(5)
+		b.check()
+		b.adv(30)
+		b.check()
+		b.refresh([]int{1})
+		b.refresh([]int{0, 1})
+		b.call(0, 0, true) // the stale adapter as probe, answered; reinstatement later
+		for i := 0; i < 4; i++ {
+			b.call(0, 0, false) // endpoint 0 gets a new adapter
+		}
+		b.outs(0, 5, false)
+		b.adv(5)
+		b.check() // the new adapter is blocked
+		b.reinst() // the stale adapter's reinstatement puts endpoint 0 back
+		b.check()
+		b.call(0, 0, false)
+		b.call(0, 0, false)
+	})
 	out = append(out, c14ctxCases()...)
+	out = append(out, c15E2ECorpus()...)
 	return out
 }
 
